@@ -4,6 +4,7 @@ import (
 	"bytes"
 	"compress/gzip"
 	"context"
+	"fmt"
 	"io"
 	"io/ioutil"
 	"sync"
@@ -63,6 +64,9 @@ type PubSub struct {
 // NewPubSub creates a route that writes metrics to a Google PubSub topic
 // We will automatically run the route and the destination
 func NewPubSub(key string, matcher matcher.Matcher, project, topic, format, codec string, bufSize, flushMaxSize, flushMaxWait int, blocking bool) (Route, error) {
+	if bufSize < 0 || flushMaxWait <= 0 {
+		return nil, fmt.Errorf("pubsub(%s): bufSize must be >= 0 and flushMaxWait > 0", key)
+	}
 	r := &PubSub{
 		baseRoute: baseRoute{sync.Mutex{}, atomic.Value{}, key},
 		project:   project,
@@ -98,17 +102,17 @@ func NewPubSub(key string, matcher matcher.Matcher, project, topic, format, code
 	ctx := context.Background()
 	client, err := pubsub.NewClient(ctx, project)
 	if err != nil {
-		log.Fatalf("pubsub(%s) failed to create google pubsub client: %v", r.Key(), err)
+		return nil, fmt.Errorf("pubsub(%s) failed to create google pubsub client: %v", r.Key(), err)
 	}
 	r.psClient = client
 
 	psTopic := client.Topic(topic)
 	exists, err := psTopic.Exists(ctx)
 	if err != nil {
-		log.Fatalf("pubsub(%s) failed to connect to pubsub topic: %v", r.Key(), err)
+		return nil, fmt.Errorf("pubsub(%s) failed to connect to pubsub topic: %v", r.Key(), err)
 	}
 	if !exists {
-		log.Fatalf("pubsub(%s) topic %s does not exist. You need to create it before running this app.", r.Key(), topic)
+		return nil, fmt.Errorf("pubsub(%s) topic %s does not exist. You need to create it before running this app.", r.Key(), topic)
 	}
 	r.psTopic = psTopic
 
